@@ -13,6 +13,17 @@ import (
 // Loosely based in the stdlib src/net/http/cookie.go
 func ParseCookies(rawCookies string) map[string][]string {
 	cookies := make(map[string][]string)
+	for _, kv := range ParseCookiePairs(rawCookies) {
+		cookies[kv[0]] = append(cookies[kv[0]], kv[1])
+	}
+	return cookies
+}
+
+// ParseCookiePairs parses like ParseCookies and returns the (name, value) pairs in the order they
+// appear in the header, so that callers can feed them to a transaction deterministically (the
+// iteration order of the map ParseCookies returns is random).
+func ParseCookiePairs(rawCookies string) [][2]string {
+	var cookies [][2]string
 
 	rawCookies = textproto.TrimString(rawCookies)
 
@@ -33,7 +44,7 @@ func ParseCookies(rawCookies string) map[string][]string {
 		if name == "" {
 			continue
 		}
-		cookies[name] = append(cookies[name], val)
+		cookies = append(cookies, [2]string{name, val})
 	}
 	return cookies
 }
